@@ -16,7 +16,7 @@ Definition op_name (o : op) : option name :=
   | OCreate q => Some (cr_name q)
   | OCopy _ dst => Some dst
   | ODelete n => Some n
-  | OPull n _ => Some n
+  | OPull n _ _ => Some n
   | OBlob _ _ | OStartup => None
   end.
 
